@@ -78,7 +78,10 @@ def build(case):
         for d in order:
             attrs = {"axis": d["axis"]}
             if d["shift"] != "none":
-                attrs["c_grid_axis_shift"] = -0.5 if d["shift"] == "neg" else 0.5
+                v = -0.5 if d["shift"] == "neg" else 0.5
+                # the attribute as a file reader delivers it: a Python float, a numpy scalar of either width, or text
+                sp_ = rng.choice(["float", "float", "np64", "np32", "str"])
+                attrs["c_grid_axis_shift"] = {"float": v, "np64": np.float64(v), "np32": np.float32(v), "str": str(v)}[sp_]
             ds[d["dim"]] = xr.DataArray(np.arange(d["len"]) * 1.0, dims=[d["dim"]], attrs=attrs)
         for a in {d["axis"] for d in order}:
             n = next(d["len"] for d in order if d["axis"] == a and d["shift"] == "none")
